@@ -8,6 +8,8 @@
 #include "TFEL/Math/st2tost2.hxx"
 #include "TFEL/Math/t2tost2.hxx"
 #include "TFEL/Math/t2tot2.hxx"
+#include "TFEL/Math/T2toT2/ConvertToPK1Derivative.hxx"
+#include "TFEL/Math/T2toT2/ConvertFromPK1Derivative.hxx"
 #include "vsym/driver.hxx"
 #include "common/mandel.hxx"
 using namespace tfel::math;
@@ -89,13 +91,87 @@ template <unsigned short N, class E> void c_tensor_det_derivatives(E& e) {
   for (unsigned short i = 0; i < F.size(); ++i) for (unsigned short j = 0; j < F.size(); ++j)
     e.ensure("computeDeterminantSecondDerivative(tensor)" + ij(i, j) + "=d(det(F).invert(F))_i/dF_j", e.eq(d2J(i, j), e.d(JiF[i], F[j])));
 }
+
+// ---- two-argument tensor-product derivatives: d(A(X).B)/dX knowing dA/dX = C, and d(A.B(X))/dX knowing dB/dX = C ----
+template <unsigned short N, class E> void c_tensor_product_chain(E& e) {
+  using T = typename E::real;
+  if constexpr (E::can_differentiate) {
+    const auto X = sym_tensor<N>(e, "X");
+    const auto K0 = sym_tensor<N>(e, "K");   // constant part of the affine map
+    const auto Z = sym_tensor<N>(e, "Z");    // the other (constant) factor
+    t2tot2<N, T> C;
+    for (unsigned short i = 0; i < X.size(); ++i) for (unsigned short j = 0; j < X.size(); ++j) C(i, j) = e.var("C" + std::to_string(i) + "_" + std::to_string(j));
+    tensor<N, T> AX = K0;  // affine tensor-valued function of X with derivative C
+    for (unsigned short i = 0; i < X.size(); ++i) for (unsigned short j = 0; j < X.size(); ++j) AX[i] = AX[i] + C(i, j) * X[j];
+    const tensor<N, T> PL = AX * Z;
+    const t2tot2<N, T> L = t2tot2<N, T>::tpld(Z, C);
+    const tensor<N, T> PR = Z * AX;
+    const t2tot2<N, T> R = t2tot2<N, T>::tprd(Z, C);
+    for (unsigned short i = 0; i < X.size(); ++i) for (unsigned short j = 0; j < X.size(); ++j) {
+      e.ensure("tpld(B,C)" + ij(i, j) + "=d(A(X)*B)_i/dX_j with dA/dX=C", e.eq(L(i, j), e.d(PL[i], X[j])));
+      e.ensure("tprd(A,C)" + ij(i, j) + "=d(A*B(X))_i/dX_j with dB/dX=C", e.eq(R(i, j), e.d(PR[i], X[j])));
+    }
+  } else {
+    e.ensure("derivative obligations are symbolic only", e.tru());
+  }
+}
+// ---- first Piola-Kirchhoff derivative conversions: the Cauchy stress is an affine function of F with symbolic derivative ds ----
+template <unsigned short N, class E> void c_pk1_derivatives(E& e) {
+  using T = typename E::real;
+  if constexpr (E::can_differentiate) {
+    const auto F = sym_tensor<N>(e, "F");
+    e.require(e.lt(T(0), det(F)));
+    const auto a = sym_stensor<N>(e, "a");
+    t2tost2<N, T> ds;
+    for (unsigned short i = 0; i < a.size(); ++i) for (unsigned short j = 0; j < F.size(); ++j) ds(i, j) = e.var("ds" + std::to_string(i) + "_" + std::to_string(j));
+    stensor<N, T> sig = a;  // sig(F) = a + ds.F : arbitrary value and arbitrary derivative at F
+    for (unsigned short i = 0; i < a.size(); ++i) for (unsigned short j = 0; j < F.size(); ++j) sig[i] = sig[i] + ds(i, j) * F[j];
+    const tensor<N, T> P = convertCauchyStressToFirstPiolaKirchhoffStress(sig, F);
+    const t2tot2<N, T> dP = convertCauchyStressDerivativeToFirstPiolaKirchoffStressDerivative(ds, F, sig);
+    for (unsigned short i = 0; i < F.size(); ++i) for (unsigned short j = 0; j < F.size(); ++j)
+      e.ensure("DSIG_DF->DPK1_DF" + ij(i, j) + "=dP_i/dF_j", e.eq(dP(i, j), e.d(P[i], F[j])));
+    // back: from the exact dP/dF to the derivative of the Kirchhoff stress tau = det(F).sig
+    t2tot2<N, T> dPx;
+    for (unsigned short i = 0; i < F.size(); ++i) for (unsigned short j = 0; j < F.size(); ++j) dPx(i, j) = e.d(P[i], F[j]);
+    const stensor<N, T> tau = det(F) * sig;
+    const t2tost2<N, T> dtau = convertFirstPiolaKirchoffStressDerivativeToKirchhoffStressDerivative(dPx, F, sig);
+    for (unsigned short i = 0; i < a.size(); ++i) for (unsigned short j = 0; j < F.size(); ++j)
+      e.ensure("DPK1_DF->DTAU_DF" + ij(i, j) + "=dtau_i/dF_j", e.eq(dtau(i, j), e.d(tau[i], F[j])));
+  } else {
+    e.ensure("derivative obligations are symbolic only", e.tru());
+  }
+}
+// second Piola-Kirchhoff stress an affine function of the Green-Lagrange strain with symbolic derivative dS
+template <unsigned short N, class E> void c_pk2_to_pk1_derivative(E& e) {
+  using T = typename E::real;
+  if constexpr (E::can_differentiate) {
+    const auto F = sym_tensor<N>(e, "F");
+    e.require(e.lt(T(0), det(F)));
+    const auto a = sym_stensor<N>(e, "a");
+    st2tost2<N, T> dS;
+    for (unsigned short i = 0; i < a.size(); ++i) for (unsigned short j = 0; j < a.size(); ++j) dS(i, j) = e.var("dS" + std::to_string(i) + "_" + std::to_string(j));
+    const stensor<N, T> egl = computeGreenLagrangeTensor(F);
+    stensor<N, T> S = a;
+    for (unsigned short i = 0; i < a.size(); ++i) for (unsigned short j = 0; j < a.size(); ++j) S[i] = S[i] + dS(i, j) * egl[j];
+    const stensor<N, T> sig = convertSecondPiolaKirchhoffStressToCauchyStress(S, F);
+    const tensor<N, T> P = convertCauchyStressToFirstPiolaKirchhoffStress(sig, F);
+    const t2tot2<N, T> dP = convertSecondPiolaKirchhoffStressDerivativeToFirstPiolaKirchoffStressDerivative(dS, F, sig);
+    for (unsigned short i = 0; i < F.size(); ++i) for (unsigned short j = 0; j < F.size(); ++j)
+      e.ensure("DS_DEGL->DPK1_DF" + ij(i, j) + "=dP_i/dF_j", e.eq(dP(i, j), e.d(P[i], F[j])));
+  } else {
+    e.ensure("derivative obligations are symbolic only", e.tru());
+  }
+}
 #define C06_ALL(N)                                                                         \
   VSYM_CONTRACT("stensor" #N "/determinant-derivatives", (c_det_derivatives<N##u>))         \
   VSYM_CONTRACT("stensor" #N "/deviator-determinant-derivatives", (c_deviator_det_derivatives<N##u>)) \
   VSYM_CONTRACT("stensor" #N "/dsquare", (c_dsquare<N##u>))                                 \
   VSYM_CONTRACT("tensor" #N "/dCdF-dBdF", (c_cauchy_green_derivatives<N##u>))               \
   VSYM_CONTRACT("tensor" #N "/tpld-tprd", (c_tensor_product_derivatives<N##u>))             \
-  VSYM_CONTRACT("tensor" #N "/determinant-derivatives", (c_tensor_det_derivatives<N##u>))
+  VSYM_CONTRACT("tensor" #N "/determinant-derivatives", (c_tensor_det_derivatives<N##u>))  \
+  VSYM_CONTRACT("tensor" #N "/tpld-tprd-with-inner-derivative", (c_tensor_product_chain<N##u>)) \
+  VSYM_CONTRACT("tensor" #N "/PK1-derivative-conversions", (c_pk1_derivatives<N##u>))       \
+  VSYM_CONTRACT("tensor" #N "/PK2-to-PK1-derivative-conversion", (c_pk2_to_pk1_derivative<N##u>))
 C06_ALL(1)
 C06_ALL(2)
 C06_ALL(3)
